@@ -12,6 +12,7 @@ RULE = ('Exhaustive: all 128x128 ordered pairs of type sets (cast, can_be, commu
         'triples; every call goes through the D monitor on the real DataType methods and is judged against '
         'a frozenset model. A case is non-trivial when no operand is the empty set or ANY; distinct = '
         'distinct (operation, operand codes).')
+RULE_ADDED = " Since the seeding rounds: node-level narrowing on var/field nodes inside the kind's default set; fresh-process probes (new interpreter, operands built from base members, the operation under test first)."
 ASSUMPTIONS = [
     'the seven base types are the documented ones (BOOL NUMBER STRING ARRAY RANGE SET MESSAGE); type sets are '
     'identified through the base members by name, not by integer value',
@@ -148,6 +149,10 @@ def run(ctx):
                 oc = _outcome(lambda: node.cast(members[j]))
                 ctx.evaluation(f'node/{kind}/{i}/{j}', nontrivial=bool(inter) and s != ANY and t != ANY)
                 ctx.count('node_casts_judged')
+                if ctx.counters['node_casts_judged'] % 2000 == 1:
+                    ctx.sample({'op': 'node cast', 'node': kind, 'stored': sorted(s), 'target': sorted(t),
+                                'expected': sorted(inter) or 'TypeError',
+                                'observed': sorted(br.bits(oc[1].data_type)) if oc[0] == 'ok' else oc[0]})
                 if inter:
                     if oc[0] != 'ok' or br.bits(oc[1].data_type) != inter:
                         viol('node-cast', node=kind, s=members[i], t=members[j], expected=sorted(inter),
@@ -257,6 +262,9 @@ def run(ctx):
             s, t = frozenset(sa), frozenset(sb)
             ctx.evaluation(f'fresh/{op}/{len(s & t)}/{len(s)}/{len(t)}', True)
             ctx.count('fresh_process_probes')
+            if ctx.counters['fresh_process_probes'] <= 3:
+                ctx.sample({'op': 'fresh-process ' + op, 'first_operand_built_from': sa, 'second_operand_built_from': sb,
+                            'expected': list(exp), 'observed': [st, val]})
             if op == 'cast':
                 exp = ('ok', br.member(s & t).value) if (s & t) else ('TypeError', None)
             elif op == 'can_be':
